@@ -130,13 +130,17 @@ def parse_verdicts(out):
     return res
 
 
+BIG_FILE = 64 << 20      # the Json reader needs several times the file size in heap
+
+
 def validate_shard(spec, cfg, shard, tag, env=None, timeout=3600):
     e = {'TRACE_FILE': shard}
     if env:
         e.update(env)
     meta = os.path.join(OUT, 'meta', f'{tag}_{os.getpid()}_{time.time_ns()}')
+    big = os.path.getsize(shard) > BIG_FILE
     rc, out, wall = run_tlc(spec, cfg, meta, env=e, workers=1,
-                            timeout=timeout)
+                            timeout=timeout, xmx='8g' if big else '2g')
     ok = completed_ok(out)
     gen, distinct = parse_stats(out)
     return dict(shard=shard, rc=rc, ok=ok, out=out, wall=wall,
@@ -152,6 +156,8 @@ def validate_shards(spec, cfg, shards, tag, env=None, jobs=None,
     unconsumed events, timeout): that is never a property verdict.
     """
     jobs = jobs or NCPU
+    if any(os.path.getsize(s) > BIG_FILE for s in shards):
+        jobs = min(jobs, 5)          # 8 GB heaps: not sixteen at once
     verdicts = []
     total = 0
     wall = 0.0
